@@ -74,7 +74,7 @@ Lemma tf_gather_stmts_tie : Gen_C16.tf_gather_stmts =
 Proof. reflexivity. Qed.
 
 Lemma tf_getitem_stmts_tie : Gen_C16.tf_getitem_stmts =
-  [ "if isinstance(key, list):\n    tensor = tf.gather(self.tensor, key)\n    mask = tf.gather(self.mask, key)\nelse:\n    tensor = self.tensor[key]\n    mask = self.mask[key]";
+  [ "if isinstance(key, list):\n    key = tf.constant(key, dtype=tf.int32)\n    tensor = tf.gather(self.tensor, key)\n    mask = tf.gather(self.mask, key)\nelse:\n    tensor = self.tensor[key]\n    mask = self.mask[key]";
     "return MaskedTensor(tensor=tensor, mask=mask)" ].
 Proof. reflexivity. Qed.
 
